@@ -12,7 +12,10 @@ EXPLANATION = (
     "Decides on /repo's current source (MIR of the lib and bin crates as cargo builds them, overflow checks on; plus the syntax tree): "
     "PANIC (every panic-capable site reachable from main -- Assert terminators, unwrap/expect, Index, explicit panics, contract-carrying library calls, "
     "process::exit -- must equal, group by group and count by count, the inventory in tables/panic_sites.toml, each row carrying a discharge; ARENA / INTERN / "
-    "EXIT / PHASE discharges are re-checked mechanically on every run), REC (every recursive SCC of the call graph reachable from main must be tabled with its "
+    "EXIT / PHASE discharges are re-checked mechanically on every run), ARITH (additions on u32/usize -- inline overflow asserts and calls of the primitive Add impls such as "
+    "`&u32 + u32` -- are discharged as a class by the magnitude argument instead of by counted rows, and its visible premises are checked over everything reachable from main: "
+    "no u32/usize constant >= 2^16, no Not/Neg, no cast from a signed/float/u64 source, no unchecked Sub/Mul/Shl, no wrapping/parsing/pow-like call; an addition on a narrower type "
+    "or with a large constant, and every Sub/Mul/Div/Shl including those through the operator traits, still needs a row), REC (every recursive SCC of the call graph reachable from main must be tabled with its "
     "descent argument; input-proportional depth is reported as a finding), EXIT (all exit sites pass the constant 1, main returns Result, no abort), "
     "ORD (no path from the creation of the script destination to handle_error / exit / an Err return other than the emitter's own I/O error; all validation "
     "dominates it), WARN (warning blocks have no exit edge). A newly added unwrap/index/unreachable that happens to be safe is reported until it gets a row: that is the price "
@@ -21,7 +24,8 @@ EXPLANATION = (
 ASSUMPTIONS = [
     "MIR as produced by rustc nightly with -Zmir-opt-level=0 for `cargo check` of the shipped targets (lib + bin, no tests)",
     "call graph: calls resolved by Instance::try_resolve; unresolved callees are checked to be non-local trait methods of generic parameters",
-    "tables/panic_sites.toml classes GUARD/KEYOF/CONST/ARITH/ARGUED are arguments confirmed by reading, not re-proved",
+    "tables/panic_sites.toml classes GUARD/KEYOF/CONST/ARGUED are arguments confirmed by reading, not re-proved",
+    "ARITH: 'a u32/usize counter, id or offset cannot reach 2^31 before memory is exhausted' is an argument about magnitudes, not a value-range proof; only its listed premises are checked",
     "panics inside dependencies are covered only for the callee contracts listed in vlib/rules_panic.py",
 ]
 
@@ -36,9 +40,11 @@ def key_str(k):
 
 def panic_rule(repo, mir, reach, res, rule="PANIC"):
     inv = RPN.inventory(mir, reach)
-    groups = collections.Counter(group_key(i) for i in inv)
+    # additions on u32/usize are discharged as a class (ARITH rule below), everything else row by row
+    tabled = [i for i in inv if not i.get("mech")]
+    groups = collections.Counter(group_key(i) for i in tabled)
     where = {}
-    for i in inv:
+    for i in tabled:
         where.setdefault(group_key(i), []).append(f"{i['file']}:{i['line']}")
     t = tables.load("panic_sites")
     rows = {}
@@ -62,9 +68,35 @@ def panic_rule(repo, mir, reach, res, rule="PANIC"):
     for k, r in rows.items():
         if k not in groups:
             res.advisory(f"panic table row no longer matches any site (stale): {k[0]} {k[1]} {k[3]}")
+    adds = [i for i in inv if i.get("mech")]
+    classes["ARITH"] += len(adds)
     res.engines["M"]["panic_sites"] = len(inv)
     res.engines["M"]["panic_classes"] = dict(classes)
+    arith_rule(mir, reach, adds, res)
     return inv, rows
+
+
+def arith_rule(mir, reach, adds, res, rule="ARITH"):
+    """Integer additions (inline Assert(overflow:Add) and calls of the primitive Add impls) on u32/usize with no large constant:
+    discharged by the magnitude argument; its visible premises are checked over everything reachable from main."""
+    per = collections.defaultdict(list)
+    for i in adds:
+        per[i["owner"]].append(i)
+    for owner, sites in sorted(per.items()):
+        kinds = collections.Counter(i["mech_text"] for i in sites)
+        res.ok(rule, f"{rule}:add:{owner}", f"{len(sites)} addition(s) {dict(kinds)}: counters, ids and array bases bounded by the number of states, literals, positions or input "
+               "bytes; memory is exhausted long before the integer range", f"{sites[0]['file']}:{sites[0]['line']}")
+    res.engines["M"]["arith_add_sites"] = len(adds)
+    src = RPN.magnitude_sources(mir, reach)
+    text = {
+        "CONST": "u32/usize constants are below 2^16",
+        "UNOP": "no bitwise Not / Neg on u32/usize",
+        "CAST": "u32/usize are cast only from u8/u16/u32/usize/bool/char (no signed, float or u64 source)",
+        "BINOP": "no unchecked Sub/Mul/Shl on u32/usize outside std macros (checked ones are panic sites with their own rows)",
+        "CALL": "no wrapping/overflowing/unchecked/saturating/pow/rotate/from_bytes/integer-parsing call produces a u32/usize",
+    }
+    for k, (n, off) in src.items():
+        res.check(not off, rule, f"{rule}:premise:{k}", f"{text[k]} ({n} scanned)" if not off else f"{text[k]}: violated by {off[:6]}", off[0].rsplit(" at ", 1)[-1] if off else "")
 
 
 def discharge_arena(repo, mir, reach, res, rule="ARENA"):
@@ -285,7 +317,9 @@ def run(repo, res, tier):
     ord_rule(repo, mir, res)
     callgraph_soundness(mir, reach, res)
     c15.warn_rules(repo, res)
-    res.floor("PANIC", res.count("PANIC"), 110)
+    res.floor("PANIC", res.count("PANIC"), 90)
+    res.floor("ARITH", res.count("ARITH"), 20)
+    res.check(res.engines["M"].get("arith_add_sites", 0) >= 45, "ARITH", "ARITH:site-floor", f"{res.engines['M'].get('arith_add_sites', 0)} additions recognised (floor 45: 37 inline + 25 through `&u32 + u32` counted on the unchanged tree)", "")
     res.floor("REC", res.count("REC"), 24)
     res.floor("ORD", res.count("ORD"), 10)
     res.floor("EXIT", res.count("EXIT"), 5)
